@@ -278,7 +278,7 @@ func runC04(t *rapid.T) {
 		stims = append(stims, stim4{Kind: k, Pause: rapid.SampledFrom([]int{0, 1, 30, 70}).Draw(t, "sp"), W: rapid.IntRange(1, 10).Draw(t, "sw"), H: rapid.IntRange(1, 4).Draw(t, "sh")})
 	}
 	readErr := rapid.IntRange(0, 9).Draw(t, "readerr") == 0
-	drainErrs := rapid.SampledFrom([]int{0, 0, 0, 0, 1, 2, 9}).Draw(t, "drainerrs")
+	drainErrs := rapid.SampledFrom([]int{0, 0, 0, 0, 1, 2, 9, -1, -1}).Draw(t, "drainerrs")
 	ch := hx.DrawChooser(t, 120)
 	hx.Arm("C04")
 	defer hx.Disarm()
@@ -291,7 +291,13 @@ func runC04(t *rapid.T) {
 	w.T.Title = "user-shell"
 	pristine := snap(w.T)
 	w.S.Note(hx.Fingerprint(cfg, ops, ending, stims, readErr, conc, drainErrs))
-	w.Tty.DrainErrs = drainErrs
+	if drainErrs < 0 {
+		// a tty whose Drain wakes the reader once instead of failing every
+		// later read
+		w.Tty.DrainOnce = true
+	} else {
+		w.Tty.DrainErrs = drainErrs
+	}
 	if readErr {
 		w.Tty.ReadErr = hx.ErrInjected
 		w.Tty.ErrAfter = 3
